@@ -9,7 +9,7 @@ from . import libcommon
 
 THEOREMS = ["c10_body_routes_to_the_same_method", "c10_executor_builder", "c10_instantiate_builder"]
 THEOREMS_T = ["c10_translated_instantiate_builder", "c10_translated_builder_setters", "c10_translated_executor_path",
-              "c10_translated_admin_helpers"]
+              "c10_translated_admin_helpers", "c10_translated_bound_querier"]
 
 STR = ["", "a", "owner1", "quo\"te", "x y", "unié", "long" * 20]
 
@@ -25,11 +25,14 @@ def funds(rng):
 EXEC = {
     "contract": [("bump", lambda r: [r.choice([0, 1, 4294967295]), r.choice([None] + STR)]),
                  ("set_owner", lambda r: [r.choice(STR)]),
-                 ("foo1_bar", lambda r: [r.randint(0, 2 ** 64 - 1), r.randint(0, 99)])],
+                 ("foo1_bar", lambda r: [r.randint(0, 2 ** 64 - 1), r.randint(0, 99)]),
+                 ("wide", lambda r: [r.randint(0, 2 ** 32 - 1) for _ in range(11)])],
     "contract_as_iface": [("poke", lambda r: [r.randint(0, 2 ** 32 - 1)]), ("poke2", lambda r: [r.choice(STR), r.choice(STR)]),
-                          ("stage_2_poke", lambda r: [r.randint(0, 2 ** 32 - 1)])],
+                          ("stage_2_poke", lambda r: [r.randint(0, 2 ** 32 - 1)]),
+                          ("wide_poke", lambda r: [r.randint(0, 2 ** 32 - 1) for _ in range(10)])],
     "dyn": [("poke", lambda r: [r.randint(0, 2 ** 32 - 1)]), ("poke2", lambda r: [r.choice(STR), r.choice(STR)]),
-            ("stage_2_poke", lambda r: [r.randint(0, 2 ** 32 - 1)])],
+            ("stage_2_poke", lambda r: [r.randint(0, 2 ** 32 - 1)]),
+            ("wide_poke", lambda r: [r.randint(0, 2 ** 32 - 1) for _ in range(10)])],
 }
 # the name the message of a method serialises under (serde's rule on the variant), where it differs from the method name
 WIRE = {"stage_2_poke": "stage2_poke"}
@@ -42,7 +45,8 @@ QUERY = {
             ("peek_a_b", lambda r: [r.randint(0, 2 ** 32 - 1)])],
 }
 ARGNAMES = {"bump": ["by", "memo"], "set_owner": ["owner"], "foo1_bar": ["a", "b"], "poke": ["n"], "poke2": ["a", "b"],
-            "value": [], "sum": ["a", "b"], "peek": [], "peek_at": ["idx", "tag"], "stage_2_poke": ["n"], "peek_a_b": ["idx"]}
+            "value": [], "sum": ["a", "b"], "peek": [], "peek_at": ["idx", "tag"], "stage_2_poke": ["n"], "peek_a_b": ["idx"],
+            "wide": ["w%d" % i for i in range(1, 12)], "wide_poke": ["p%d" % i for i in range(1, 11)]}
 
 
 def js(v):
